@@ -19,7 +19,7 @@ def run(ctx):
                 "--prisms", prisms, "--prism-cap", 60, timeout=7200)
     else:
         ctx.dsv("C17", "drive", "--out", ev, "--max3d", 4, "--permille", 100, "--cover-depth", 2,
-                "--prisms", prisms, "--prism-cap", 1500, timeout=14400)
+                "--prisms", prisms, "--prism-cap", 1500, "--prism-sheets", 3, timeout=14400)
     for ln in open(ev):
         e = json.loads(ln)
         if e.get("reason") != "orbifold invariants do not match":
